@@ -4,11 +4,13 @@ from abc import abstractmethod, ABCMeta
 import six
 from typing import Optional
 
+from trashcli.fs import FsMethods
 from trashcli.fstab.volume_of import VolumeOf
 from trashcli.fstab.volumes import Volumes
 from trashcli.lib.environ import Environ
 from trashcli.lib.trash_dirs import (
     volume_trash_dir1, volume_trash_dir2, home_trash_dir)
+from trashcli.trash_dirs_scanner import TopTrashDirRules, top_trash_dir_valid
 
 
 @six.add_metaclass(ABCMeta)
@@ -24,7 +26,8 @@ class TrashDirectoriesImpl(TrashDirectories):
                  uid,  # type: int
                  environ,
                  ):
-        trash_directories1 = TrashDirectories1(volumes, uid, environ)
+        trash_directories1 = TrashDirectories1(volumes, uid, environ,
+                                               TopTrashDirRules(FsMethods()))
         self.trash_directories2 = TrashDirectories2(volumes,
                                                     trash_directories1)
 
@@ -58,10 +61,12 @@ class TrashDirectories1:
                  volumes,  # type: Volumes
                  uid,  # type: int
                  environ,  # type: Environ
+                 top_trash_dir_rules=None,  # type: Optional[TopTrashDirRules]
                  ):
         self.volumes = volumes
         self.uid = uid
         self.environ = environ
+        self.top_trash_dir_rules = top_trash_dir_rules
 
     def all_trash_directories(self):
         volumes_to_check = self.volumes.list_mount_points()
@@ -69,6 +74,15 @@ class TrashDirectories1:
             yield path1, volume1
         for volume in volumes_to_check:
             for path1, volume1 in volume_trash_dir1(volume, self.uid):
-                yield path1, volume1
+                if self._can_be_read(path1):
+                    yield path1, volume1
             for path1, volume1 in volume_trash_dir2(volume, self.uid):
                 yield path1, volume1
+
+    def _can_be_read(self, top_trash_dir):
+        # same rule as trash-list, trash-empty and trash-rm: $topdir/.Trash
+        # must be a sticky directory and not a symbolic link
+        if self.top_trash_dir_rules is None:
+            return True
+        return (self.top_trash_dir_rules.valid_to_be_read(top_trash_dir)
+                == top_trash_dir_valid)
